@@ -5,7 +5,6 @@ import (
 	"encoding/gob"
 	"fmt"
 	"io"
-	"reflect"
 	"strings"
 	"time"
 
@@ -816,15 +815,8 @@ func ToActivity(it Item) (*Activity, error) {
 	case Activity:
 		return &i, nil
 	default:
-		// NOTE(marius): this is an ugly way of dealing with the interface conversion error: types from different scopes
-		typ := reflect.TypeOf(new(Activity))
-		if reflect.TypeOf(it).ConvertibleTo(typ) {
-			if i, ok := reflect.ValueOf(it).Convert(typ).Interface().(*Activity); ok {
-				return i, nil
-			}
-		}
+		return reflectItemToType[Activity](it)
 	}
-	return nil, ErrorInvalidType[Activity](it)
 }
 
 // MarshalJSON encodes the receiver object to a JSON document.
